@@ -76,6 +76,8 @@ pub struct Scn {
     pub h1_only_client: bool,
     /// the pool is configured with continue_after_preemption = false
     pub no_continue: bool,
+    /// the pool is configured with this `max_idle_per_host` (a legal corner: 0 keeps nothing idle)
+    pub max_idle: Option<usize>,
 }
 
 impl Default for ChunkBody {
@@ -227,9 +229,12 @@ pub fn run_one(scn: &Scn, schedule: &[usize]) -> Execution<Outcome> {
             .without_tls()
             .with_body::<ChunkBody, Body>()
             .build_service()
-    } else if scn.no_continue {
+    } else if scn.no_continue || scn.max_idle.is_some() {
         let mut pc = hyperdriver::client::PoolConfig::default();
-        pc.continue_after_preemption = false;
+        pc.continue_after_preemption = !scn.no_continue;
+        if let Some(m) = scn.max_idle {
+            pc.max_idle_per_host = m;
+        }
         hyperdriver::Client::builder()
             .with_protocol(HttpConnectionBuilder::<ChunkBody>::default())
             .with_transport(transport)
@@ -359,7 +364,7 @@ fn r(id: u32, origin: char, h2: bool, post: bool, chunks: u8) -> ReqSpec {
 }
 
 pub fn scenarios(thorough: bool) -> Vec<Scn> {
-    let mk = |name: &str, prelude: Vec<ReqSpec>, concurrent: Vec<ReqSpec>, bufsize: usize, cancellable: bool| Scn { name: name.into(), prelude, concurrent, bufsize, cancellable, h1_only_client: false, no_continue: false };
+    let mk = |name: &str, prelude: Vec<ReqSpec>, concurrent: Vec<ReqSpec>, bufsize: usize, cancellable: bool| Scn { name: name.into(), prelude, concurrent, bufsize, cancellable, h1_only_client: false, no_continue: false, max_idle: None };
     let mut v = vec![
         mk("h1-2-concurrent", vec![], vec![r(1, 'a', false, true, 2), r(2, 'a', false, true, 1)], 1024, true),
         mk("h1-reuse-after-prelude", vec![r(9, 'a', false, true, 1)], vec![r(1, 'a', false, true, 2), r(2, 'a', false, false, 0)], 1024, true),
@@ -392,6 +397,10 @@ pub fn scenarios(thorough: bool) -> Vec<Scn> {
     // HTTP/1.1 and HTTP/2 requests to one origin with abandoned attempts dropped (continue_after_preemption =
     // false): a released HTTP/1.1 connection may pre-empt the owner of an HTTP/2 attempt others wait for
     v.push(Scn { no_continue: true, ..mk("mixed-h1-two-h2-no-continue", vec![], vec![r(1, 'a', false, true, 1), r(2, 'a', true, true, 1), r(3, 'a', true, false, 0)], 1024, false) });
+    // a pool that keeps nothing idle (max_idle_per_host = 0): concurrent HTTP/2 requests still share the attempt
+    // and every one of them is served; HTTP/1.1 requests are served by connections of their own
+    v.push(Scn { max_idle: Some(0), ..mk("h2-2-concurrent-max-idle-0", vec![], vec![r(1, 'a', true, true, 1), r(2, 'a', true, true, 1)], 1024, true) });
+    v.push(Scn { max_idle: Some(0), ..mk("h1-after-prelude-max-idle-0", vec![r(9, 'a', false, true, 1)], vec![r(1, 'a', false, true, 1), r(2, 'a', false, false, 0)], 1024, false) });
     if thorough {
         v.push(mk("h1-3-concurrent", vec![], vec![r(1, 'a', false, true, 1), r(2, 'a', false, true, 2), r(3, 'a', false, false, 0)], 1024, true));
         v.push(mk("h2-3-concurrent", vec![], vec![r(1, 'a', true, true, 1), r(2, 'a', true, true, 2), r(3, 'a', true, false, 0)], 1024, true));
